@@ -43,6 +43,7 @@ def move_file(fs,  # type: Fs
               src, # type: str
               dest, # type: str
               ):
-    # Using nornpath allow to delete symlink to a dir even if the are
-    # specified with traling slash
-    fs.move(os.path.normpath(src), dest)
+    # Stripping trailing slashes allows to trash a symlink to a dir even if
+    # it is specified with trailing slashes. The path is not normalized
+    # lexically: 'link/../x' is not 'x' when link is a symlink.
+    fs.move(src.rstrip(os.path.sep) or src, dest)
